@@ -414,4 +414,147 @@ class C02d(Obligation):
                   'the decorator nearest to the def is applied first, the topmost last')
 
 
-OBLIGATIONS = [C02a, C02b, C02c, C02d]
+from jedi.inference import finder as jfinder  # noqa: E402
+from jedi.inference.base_value import ValueSet  # noqa: E402
+from jedi.inference.value import iterable as jiterable  # noqa: E402
+
+
+class _Tuple(jiterable.Sequence):
+    array_type = 'tuple'
+
+    def __init__(self, members):
+        self._members = members
+
+    def py__iter__(self, contextualized_node=None):
+        return iter(self._members)
+
+    def __getattr__(self, name):        # a stand-in: nothing is looked up lazily on the builtin tuple class
+        raise AttributeError(name)
+
+    def __repr__(self):
+        return '<tuple of classes>'
+
+
+class _Cls:
+    def __init__(self, tag):
+        self.tag = tag
+        self.instance = 'instance-of-' + tag
+
+    def execute_with_values(self):
+        return ValueSet([self.instance])
+
+
+class C02e(Obligation):
+    id = 'C02.e'
+    title = 'isinstance narrowing: isinstance(x, (A, B, ...)) narrows x to instances of EVERY listed class (union), isinstance(x, A) to A'
+    pattern = 'P3 (the second argument infers to symbolic alternatives: single classes and tuples of up to 3 classes)'
+    assumptions = (
+        'the isinstance call is recognised (trailer with two positional arguments whose first spells the searched name: the '
+        'recogniser, TreeArguments.unpack and the call-string comparison are stubs with symbolic answers); the class '
+        'argument infers to M<=2 alternatives, each a class or a tuple of 1..3 classes; executing a class yields its instance',
+    )
+
+    def configs(self, tier):
+        return [dict(M=m) for m in (1, 2)]
+
+    def scenario(self, ctx, cfg):
+        recognised = ctx.flag('is_isinstance_call')
+        n_args = ctx.choice('n_arguments', 3) + 1                  # 1..3 unpacked arguments
+        keyword = ctx.flag('second_is_keyword')
+        same_name = ctx.flag('first_argument_spells_the_name')
+        alts = []
+        expected = set()
+        k = 0
+        for m in range(cfg['M']):
+            size = ctx.choice('alternative%d_tuple_size' % m, 4)      # 0: a plain class, 1..3: tuple of that many
+            if size == 0:
+                c = _Cls('C%d' % k); k += 1
+                alts.append(c)
+                expected.add(c.instance)
+            else:
+                members = []
+                for j in range(size):
+                    c = _Cls('C%d' % k); k += 1
+                    members.append(Obj(infer=lambda c=c: ValueSet([c])))
+                    expected.add(c.instance)
+                alts.append(_Tuple(members))
+        lazy_cls = Obj(infer=lambda: list(alts))     # a list: deterministic order in both execution modes
+        arglist = Obj(children=[Obj(tag='arg0'), ',', Obj(tag='arg1')] if n_args == 2 else [Obj(tag='arg0')] * (2 * n_args - 1),
+                      tag='arglist')
+        trailer = Obj(children=['(', arglist, ')'])
+        ctx.patch(jfinder, '_get_isinstance_trailer_arglist', lambda node: trailer if recognised else None)
+        unpacked = [(None, Obj(tag='lazy-x')), ('kw' if keyword else None, lazy_cls), (None, Obj(tag='third'))][:n_args]
+        ctx.patch(jfinder, 'TreeArguments', lambda state, value, al, tr: Obj(unpack=lambda: iter(unpacked)))
+        name = Obj(tag='search-name')
+        ctx.patch(jfinder, '_get_call_string', lambda node: 'x' if (node is name or same_name) else 'y')
+        ctx.force(jfinder._check_isinstance_type)
+        out = ctx.call(jfinder._check_isinstance_type, Obj(inference_state=None), Obj(tag='test'), name)
+        ctx.check(out.exc is None, 'never raises')
+        if out.exc is not None:
+            return
+        applies = recognised and n_args == 2 and not keyword and same_name
+        if not applies:
+            ctx.check(out.value is None, 'anything but isinstance(<the name>, <classes>) narrows nothing')
+        else:
+            ctx.check(out.value is not None and set(out.value) == expected,
+                      'the narrowed type is the union of the instances of every listed class')
+
+
+import jedi  # noqa: E402
+from jedi.inference.value import function as jfunction  # noqa: E402
+
+GENERATORS = [
+    # every yield produces (index of the yield in source order, current loop element or None)
+    "def gen(ITER):\n    yield (0, None)\n    for x in ITER:\n        yield (1, x)\n        yield (2, x)\n    yield (3, None)\n",
+    "def gen(ITER):\n    for x in ITER:\n        yield (0, x)\n        yield (1, x)\n        yield (2, x)\n",
+    "def gen(ITER):\n    for x in ITER:\n        yield (0, x)\n    for x in ITER:\n        yield (1, x)\n        yield (2, x)\n",
+]
+
+
+class C02f(Obligation):
+    id = 'C02.f'
+    title = 'generators: the predicted order of yielded values is the order in which Python yields them (loop elements outer, yields inner)'
+    pattern = 'P3 (real parso tree of a generator; the iterated value has a symbolic number of elements; reference = running the generator)'
+    assumptions = (
+        'generator bodies made of plain yields and simple for loops at the top level of the function (the shape jedi '
+        'predicts an order for); the iterated expression infers to N<=3 elements (symbolic N); _get_yield_lazy_value and '
+        'ContextualizedNode are stubs that report which yield / which element is being looked at',
+        'reference: the same source executed by CPython with ITER = the N elements',
+    )
+
+    def configs(self, tier):
+        return [dict(gen=i) for i in range(len(GENERATORS))]
+
+    def scenario(self, ctx, cfg):
+        src = GENERATORS[cfg['gen']]
+        n = ctx.choice('n_elements', 4)
+        ctx.int('unused')
+        elements = ['element%d' % i for i in range(n)]
+        ns = {}
+        exec(compile(src, '<generator>', 'exec'), ns)
+        expected = list(ns['gen'](elements))
+        script = jedi.Script(src)
+        module_context = script._get_module_context()
+        funcdef = script._module_node.children[0]
+        value = jfunction.FunctionValue.from_context(module_context, funcdef)
+        execution = value.as_context()
+        yields = list(funcdef.iter_yield_exprs())
+        ctx.patch(jfunction, 'ContextualizedNode',
+                  lambda context, node: Obj(infer=lambda: Obj(iterate=lambda cn: iter(
+                      [Obj(infer=lambda e=e: e) for e in elements]))))
+
+        def which(self, yield_expr):
+            current = None
+            for dct in self.predefined_names.values():
+                current = dct.get('x', current)
+            return iter([(yields.index(yield_expr), current)])
+        ctx.patch(type(execution), '_get_yield_lazy_value', which)
+        raw = jfunction.BaseFunctionExecutionContext.get_yield_lazy_values
+        ctx.force(getattr(raw, '__wrapped__', raw))
+        out = ctx.call(lambda: list(execution.get_yield_lazy_values()))
+        ctx.check(out.exc is None, 'never raises')
+        if out.exc is None:
+            ctx.check(out.value == expected, 'yield order equals the run-time order')
+
+
+OBLIGATIONS = [C02a, C02b, C02c, C02d, C02e, C02f]
